@@ -287,7 +287,8 @@ func MustEncodeMessage(msg *hsms.DataMessage, opts ...EncoderOption) string {
 
 // writeStrictASCII renders s as printable runs quoted with `quote` and
 // non-printable bytes as 0xHH numeric tokens, space-separated — the exact form
-// parseASCIIStrict reads back. Empty string renders as an empty quoted run.
+// parseASCIIStrict reads back. Inside a run the quote, the backslash and '>'
+// are backslash-escaped. Empty string renders as an empty quoted run.
 func writeStrictASCII(sb *strings.Builder, s string, quote byte) {
 	if s == "" {
 		sb.WriteByte(quote)
@@ -317,7 +318,10 @@ func writeStrictASCII(sb *strings.Builder, s string, quote byte) {
 				sb.WriteByte(quote)
 				inRun = true
 			}
-			if c == quote || c == '\\' {
+			// '>' is escaped too: inside a quoted run the strict parser takes an
+			// unescaped '>' as the item terminator ("unclosed quote string") and
+			// reads `\>` back as '>'.
+			if c == quote || c == '\\' || c == '>' {
 				sb.WriteByte('\\')
 			}
 			sb.WriteByte(c)
